@@ -14,6 +14,25 @@ FIRST_MISSED = {
   "C25": "ids never contained inner whitespace",
   "C28": "indexes were always created through absolute paths; one case in three now uses relative paths",
 }
+PRE = "strengthened after reading the seed and before the first run against it (whether the earlier machinery would have caught it was not tried): "
+FIRST_MISSED.update({
+  "C01-r2": PRE + "a quarter of the C01 histories now start from a directory with a stale MANIFEST.tmp (leftover of an interrupted store)",
+  "C02-r2": PRE + "trace correspondence: every completed call's operations on wal.log must be the model's micro-operations in order (C02.History.traces_run)",
+  "C05-r2": "missed at first: no scenario had a handle commit without writing a segment, another handle commit a document once, and the first handle then delete it; a second fixed scenario does",
+  "C07-r2": PRE + "a third of the C07 queries are decorated with boosts, including boost 0 (matching must not depend on boosts)",
+  "C09-r2": "missed at first: every document had a non-empty body; one in sixteen now has none and one an empty one (field length 0)",
+  "C10-r2": PRE + "boost 0 added to the boost pool of the sort worlds",
+  "C11-r2": PRE + "half of the multi-segment worlds compact directly (no commit in between) before the stale-cursor replay",
+  "C12-r2": "missed at first: 2 histograms in 12 worlds and no multi-valued document that leaves a bucket and returns; zig-zag multi-valued documents, quick tier 12 -> 40 worlds",
+  "C13-r2": "missed at first: top_hits trees were rare; worlds chosen for top_hits now always contain one (score-, field- or mixed-ordered) and are run field-sorted with and without explain; quick tier 10 -> 36 worlds",
+  "C14-r2": PRE + "fixed worlds for a nested keyword that is only a fast column and a nested unstored numeric",
+  "C16-r2": "missed at first (twice): fully random requests rarely reach the bucket-filling loops and the generated date bounds were not RFC 3339; one request in twelve is now a well-formed request with one edge-parameter (date_)histogram",
+  "C17-r2": PRE + "every file gets flips in its first and last 12 bytes whatever the sample says",
+  "C20-r2": "missed at first: sort plans led by _score and broken by a field were rare; added to the plan generator, quick tier 14 -> 40 worlds",
+  "C24-r2": PRE + "unknown fields / types / sort fields with long multi-byte names (error reasons that quote request content)",
+  "C26-r2": PRE + "multi-byte ids and tags in every response and every capacity whose last byte falls inside a character",
+  "C28-r2": PRE + "directory names one of which is a string prefix of the other",
+})
 rows = []
 for pid in sorted(os.listdir(os.path.join(HERE, "seeded"))):
     d = os.path.join(HERE, "seeded", pid)
@@ -27,13 +46,13 @@ for pid in sorted(os.listdir(os.path.join(HERE, "seeded"))):
     caught = bool(viol)
     kind = "concrete failing input" if any("no-failing-input-found" not in l for l in viol) else ("no-failing-input-found" if viol else "-")
     meta["coordinator_verification"] = {
-        "scratch_worktree": "/tmp/sv<slot> (detached at /repo main), lib/verify_seed.sh",
+        "scratch_worktree": "scratch worktree detached at /repo main (removed afterwards), lib/verify_seed.sh",
         "tests_with_patch_passed_failed": ver.get("tests_with_patch_passed_failed"),
         "demo_fails_with_patch": ver.get("demo_exit_with_patch") == 1,
         "demo_passes_without_patch": ver.get("demo_exit_without_patch") == 0,
         "confirmed": ver.get("confirmed"),
     }
-    meta["check_run"] = {"cmd": f"lib/run_seed.sh {pid} (git -C /repo apply seeded/{pid}/patch.diff; ./check {pid} --tier quick; git -C /repo checkout -- .)",
+    meta["check_run"] = {"cmd": f"lib/run_seed.sh {pid[:3]} quick {pid} (git -C /repo apply seeded/{pid}/patch.diff; ./check {pid[:3]} --tier quick; git -C /repo checkout -- .)",
                          "caught": caught, "verdict_kind": kind, "violation_lines": viol[:3]}
     if pid in FIRST_MISSED:
         meta["check_run"]["missed_at_first"] = FIRST_MISSED[pid]
